@@ -282,6 +282,20 @@ def F39():
     return bool(np.allclose(P, want) and np.allclose(R, B)), f"later uint8 batch {B.tolist()}: prepared {P.tolist()} (first call's map gives {want.tolist()}), restored {R.tolist()}"
 
 
+def F41():
+    with quiet():
+        m = GaussianART(rho=0.5, sigma_init=np.array([16, 16], dtype=np.uint8), alpha=1e-10)
+        m.partial_fit(np.array([[0.25, 0.5]]))
+        w = np.asarray(m.W[0], dtype=float)
+        ok1 = bool(np.all(np.isfinite(w))) and abs(w[4] - 1 / 256) < 1e-15 and abs(w[6] - 256) < 1e-9
+        try:
+            BayesianART(rho=0.5, cov_init=np.eye(2, dtype=np.longdouble)).fit(np.array([[0.25, 0.5], [0.75, 0.5]]))
+            ok2, d2 = True, "trains"
+        except Exception as e:
+            ok2, d2 = False, repr(e)
+    return ok1 and ok2, f"GaussianART(sigma_init=uint8 [16,16]) first weight {w.tolist()}; BayesianART(cov_init=longdouble eye): {d2}"
+
+
 ALL = {k: v for k, v in list(globals().items()) if k[0] == "F" and k[1:3].isdigit()}
 
 if __name__ == "__main__":
